@@ -96,6 +96,57 @@ def run(ctx):
               msg=f"trigger_watch: an exception from the @state_active expression {sorted(bad)[:1]} reaches the outer handler that unsubscribes and ends the trigger", key="active expr reaches terminating handler",
               node=f, rel="trigger.py")
 
+    ctx.rule("R18.6", "reading a script file: any failure (I/O error, undecodable bytes) skips that file only - it never leaves the reader", floor=4)
+    for uid, labels in (("__init__.py::load_scripts.glob_read_files", ["open", "file_desc.read", "os.path.getmtime"]),
+                        ("global_ctx.py::GlobalContextMgr.load_file.read_file", ["open", "file_desc.read", "os.path.getmtime"])):
+        f = program.func(uid)
+        present = {call_name(n) for n in body_walk(f) if isinstance(n, ast.Call)}
+        missing = [l for l in labels if l not in present]
+        if missing:
+            raise AnalysisError(f"{uid}: file access call(s) {missing} not found")
+        pol = FlowPolicy(program, may_raise_all=False, cancel=False, record_atoms=False, locals_={"file_desc"})
+        pol.raising_labels = set(labels)
+        pol.trace_handlers = True
+        pol.loop_unroll = 1
+        out = run_flow(program, uid, pol, args={"load_paths": Sym(("paths",)), "apps_config": Sym(("apps",))} if uid.endswith("glob_read_files") else None)
+        escaped = sorted({str(c.env.get("$exc").origin) for kind, c, desc in exits(out) if kind == "raise" and "user code via" in str(getattr(c.env.get("$exc"), "origin", ""))})
+        for lab in labels:
+            esc = [o for o in escaped if f"via {lab} " in o]
+            ctx.check(not esc, "R18.6", uid, f"failures of {lab} are contained",
+                      msg=f"{uid}: an exception raised by {lab} that is not an OSError (e.g. UnicodeDecodeError for a file that is not valid UTF-8) leaves the reader "
+                      f"({[e.replace('user code via ', '') for e in esc[:1]]}): set-up or reload fails as a whole and no script is loaded", key=f"reader escape {lab}", node=f, rel=uid.split("::")[0])
+
+    ctx.rule("R18.7", "traceback reconstruction: an interpreter frame replaces the previous one only when it belongs to the same function of the same file, otherwise it is added", floor=4)
+    uid = "eval.py::EvalExceptionFormatter.ast_frame"
+    fa = program.func(uid)
+    for label, last, want_len in (("same file and function", ("hello.py", "fetch"), 1), ("same name in another file", ("backend.py", "fetch"), 2),
+                                  ("other function of the same file", ("hello.py", "other"), 2), ("empty stack", None, 1)):
+        def frame_summary(i, n, a, k, c, o):
+            oid = "newframe"
+            for key in ("filename", "name", "lineno"):
+                c = c.hset(f"{oid}.{key}", k.get(key, Const(None)))
+            return [(c, ObjV(oid, "FrameSummary"))]
+
+        pol = FlowPolicy(program, may_raise_all=False, cancel=False, summaries={"traceback.FrameSummary": frame_summary,
+                         "ctx.get_global_ctx": lambda i, n, a, k, c, o: [(c, ObjV("gctx", "GlobalContext"))]})
+        heap = {"self.stack": ListV((ObjV("last", "FrameSummary"),) if last else (), "list"), "self.current_code_list": ListV((Const("line1"), Const("line2")), "list"),
+                "self.lineno": Const(1), "self.col_offset": Const(0), "self.end_col_offset": Const(3), "self.current_filename": Const("hello.py"), "self.current_func": Const("fetch"),
+                "self.last_eval_frame": ObjV("last", "FrameSummary") if last else Const(None), "gctx.source": Const("line1\nline2"), "ctx.name": Const("file.hello.fetch")}
+        if last:
+            heap.update({"last.filename": Const(last[0]), "last.name": Const(last[1]), "last.lineno": Const(9)})
+        out = run_flow(program, uid, pol, args={"self": ObjV("self", "EvalExceptionFormatter"), "ctx": ObjV("ctx", "AstEval")}, heap=heap)
+        bad = None
+        ex = exits(out)
+        for kind, c, desc in ex:
+            st = c.heap.get("self.stack")
+            if kind != "return" or not isinstance(st, ListV):
+                bad = f"leaves with {desc}"
+            elif len(st.items) != want_len or st.items[-1] != ObjV("newframe", "FrameSummary"):
+                kept = [f"{c.heap.get(x.oid + '.filename')!r}:{c.heap.get(x.oid + '.name')!r}" for x in st.items if isinstance(x, ObjV)]
+                bad = f"the stack becomes {kept}; " + ("the caller's frame must stay and the new frame be added" if want_len == 2 else "the frame of the same function must be replaced by the deeper one")
+        ctx.check(bool(ex) and bad is None, "R18.7", uid, f"new frame hello.py:fetch after {label}", msg=f"ast_frame, previous frame {last}: {bad or 'no exit'}: the logged traceback loses or duplicates a script frame",
+                  key=f"frame merge {label}", node=fa, rel="eval.py")
+
     ctx.rule("R18.2", "a file that fails to load does not stop the other files", floor=1)
     f = program.func("__init__.py::load_scripts")
     ok = False
